@@ -24,7 +24,7 @@ CORPUS = [
 ]
 
 
-def compile_text(B, text, I=None, st=None, hash_order=None):
+def compile_text(B, text, I=None, st=None, hash_order=None, allow_fail=False):
     E = B.engine("dev")
     if I is None:
         I = E.fresh()
@@ -39,6 +39,8 @@ def compile_text(B, text, I=None, st=None, hash_order=None):
     opts, tree = v.fields[0]
     f2, env2 = E._resolve("scheme::compile", {})
     outs = I.call_fn(f2, [ValRef(tree), ValRef(opts)], s, env2)
+    if len(outs) == 1 and is_err(outs[0][1]) and allow_fail:
+        return I, outs[0][0], tree, None, None
     if len(outs) != 1 or isinstance(outs[0][1], Panic) or not is_ok(outs[0][1]):
         raise Inconclusive("corpus input %r does not compile to a single program" % text)
     s2, c = outs[0]
@@ -105,9 +107,11 @@ def run(ctx, rep, tier):
         I = B.engine("dev").fresh()
         st = St()
         seq = []
-        for t in (text, "-name zz -fprint QQ -print0", text, "-mmin 3 -o -iname q", text):
+        for t in (text, "-name zz -fprint QQ -print0", text, "-mmin 3 -o -iname q", "-mmin -5 -user root", "-fprint Z -ls", text):
             n_reads = len(I.clock_reads)
-            _, st, _, ce_i, items_i = compile_text(B, t, I=I, st=st)
+            _, st, _, ce_i, items_i = compile_text(B, t, I=I, st=st, allow_fail=True)
+            if ce_i is None:
+                continue          # an unrelated compilation that fails (unsupported construct after a time test / a printer)
             seq.append((t, strip_clock(items_i, I.clock_reads[n_reads:]), iomap_set(ce_i)))
         mine = [(r, io) for t, r, io in seq if t == text]
         ok = all(x == mine[0] for x in mine) and mine[0][0] == ref
